@@ -1506,8 +1506,8 @@ class Compiler:
 
         body = []
 
-        # Track the blocks of this translation
-        self._translations.append(set())
+        # Track the blocks of this translation (name -> ordinal)
+        self._translations.append({})
 
         # Prepare new stream
         append = identifier("append", id(node))
@@ -1535,7 +1535,7 @@ class Compiler:
             keys = []
             values = []
 
-            # (a set: fix the order, it is the order of the mapping)
+            # (fix the order, it is the order of the mapping)
             for name in sorted(names):
                 stream, append = self._get_translation_identifiers(name)
                 keys.append(ast.Constant(name))
@@ -1786,7 +1786,8 @@ class Compiler:
             raise TranslationError(
                 "Duplicate translation name: %s.", node.name)
 
-        self._translations[-1].add(node.name)
+        names = self._translations[-1]
+        names[node.name] = len(names)
         body = []
 
         # prepare new stream
@@ -2016,9 +2017,13 @@ class Compiler:
 
     def _get_translation_identifiers(self, name):
         assert self._translations
-        prefix = str(id(self._translations[-1])).replace('-', '_')
-        stream = identifier("stream_%s" % prefix, name)
-        append = identifier("append_%s" % prefix, name)
+        names = self._translations[-1]
+        prefix = str(id(names)).replace('-', '_')
+        # (the ordinal of the block is part of the name: two block names
+        # may read the same once mangled)
+        suffix = "%d_%s" % (names[name], name)
+        stream = identifier("stream_%s" % prefix, suffix)
+        append = identifier("append_%s" % prefix, suffix)
         return stream, append
 
     def _enter_assignment(self, names):
